@@ -2,8 +2,9 @@ package main
 
 import (
 	"crypto/aes"
-	_ "crypto/sha256"
-	_ "crypto/sha512"
+	gohmac "crypto/hmac"
+	"crypto/sha256"
+	"crypto/sha512"
 	"fmt"
 	"math/rand"
 	"strconv"
@@ -44,45 +45,53 @@ func isIn(x int, l []int) bool {
 	return false
 }
 
+// the key is built as a map (what a decoded key is) and handed to New, so that CheckKey — not only KeyFrom — decides
+// about sizes; KeyFrom must agree about acceptance
+func symKey(alg int, k []byte) key.Key {
+	return key.Key{iana.KeyParameterKty: iana.KeyTypeSymmetric, iana.KeyParameterAlg: alg, iana.SymmetricKeyParameterK: append([]byte{}, k...)}
+}
+
+var errKeyFromDisagrees = fmt.Errorf("keyfrom-disagrees")
+
 func macerFor(alg int, k []byte) (key.MACer, error) {
-	var kk key.Key
-	var err error
+	var m key.MACer
+	var err, err2 error
 	switch {
 	case isIn(alg, hmacAlgs):
-		if kk, err = hmac.KeyFrom(alg, k); err != nil {
-			return nil, err
-		}
-		return hmac.New(kk)
+		m, err = hmac.New(symKey(alg, k))
+		_, err2 = hmac.KeyFrom(alg, k)
 	case isIn(alg, aesmacAlgs):
-		if kk, err = aesmac.KeyFrom(alg, k); err != nil {
-			return nil, err
-		}
-		return aesmac.New(kk)
+		m, err = aesmac.New(symKey(alg, k))
+		_, err2 = aesmac.KeyFrom(alg, k)
+	default:
+		return nil, fmt.Errorf("alg")
 	}
-	return nil, fmt.Errorf("alg")
+	if (err == nil) != (err2 == nil) {
+		return nil, errKeyFromDisagrees
+	}
+	return m, err
 }
 
 func encryptorFor(alg int, k []byte) (key.Encryptor, error) {
-	var kk key.Key
-	var err error
+	var e key.Encryptor
+	var err, err2 error
 	switch {
 	case isIn(alg, gcmAlgs):
-		if kk, err = aesgcm.KeyFrom(alg, k); err != nil {
-			return nil, err
-		}
-		return aesgcm.New(kk)
+		e, err = aesgcm.New(symKey(alg, k))
+		_, err2 = aesgcm.KeyFrom(alg, k)
 	case isIn(alg, ccmAlgs):
-		if kk, err = aesccm.KeyFrom(alg, k); err != nil {
-			return nil, err
-		}
-		return aesccm.New(kk)
+		e, err = aesccm.New(symKey(alg, k))
+		_, err2 = aesccm.KeyFrom(alg, k)
 	case alg == iana.AlgorithmChaCha20Poly1305:
-		if kk, err = chacha20poly1305.KeyFrom(k); err != nil {
-			return nil, err
-		}
-		return chacha20poly1305.New(kk)
+		e, err = chacha20poly1305.New(symKey(alg, k))
+		_, err2 = chacha20poly1305.KeyFrom(k)
+	default:
+		return nil, fmt.Errorf("alg")
 	}
-	return nil, fmt.Errorf("alg")
+	if (err == nil) != (err2 == nil) {
+		return nil, errKeyFromDisagrees
+	}
+	return e, err
 }
 
 func okBytes(b []byte, err error) string {
@@ -97,6 +106,9 @@ func execPrim(op string, a []string) string {
 	case "prim.mac":
 		alg, _ := strconv.Atoi(a[0])
 		m, err := macerFor(alg, unhx(a[1]))
+		if err == errKeyFromDisagrees {
+			return "keyfrom-disagrees"
+		}
 		if err != nil {
 			return "err"
 		}
@@ -114,6 +126,9 @@ func execPrim(op string, a []string) string {
 	case "prim.aead.enc":
 		alg, _ := strconv.Atoi(a[0])
 		e, err := encryptorFor(alg, unhx(a[1]))
+		if err == errKeyFromDisagrees {
+			return "keyfrom-disagrees"
+		}
 		if err != nil {
 			return "err"
 		}
@@ -145,7 +160,8 @@ func execPrim(op string, a []string) string {
 			n, _ := strconv.Atoi(s)
 			buf := make([]byte, n)
 			if got, err := rd.Read(buf); err != nil || got != n {
-				return "err"
+				outs = append(outs, "err") // a failing read ends the sequence
+				break
 			}
 			outs = append(outs, hx(buf))
 		}
@@ -215,6 +231,38 @@ func flipBit(r *rand.Rand, b []byte) []byte {
 	return out
 }
 
+// the untruncated MAC, computed without the library: HMAC from the Go standard library, CBC-MAC by hand
+func fullMac(alg int, k, data []byte) []byte {
+	switch alg {
+	case iana.AlgorithmHMAC_256_64, iana.AlgorithmHMAC_256_256:
+		h := gohmac.New(sha256.New, k)
+		h.Write(data)
+		return h.Sum(nil)
+	case iana.AlgorithmHMAC_384_384:
+		h := gohmac.New(sha512.New384, k)
+		h.Write(data)
+		return h.Sum(nil)
+	case iana.AlgorithmHMAC_512_512:
+		h := gohmac.New(sha512.New, k)
+		h.Write(data)
+		return h.Sum(nil)
+	}
+	block, err := aes.NewCipher(k)
+	if err != nil {
+		return nil
+	}
+	x := make([]byte, 16)
+	for i := 0; i < len(data); i += 16 {
+		var b [16]byte
+		copy(b[:], data[i:])
+		for j := range x {
+			x[j] ^= b[j]
+		}
+		block.Encrypt(x, x)
+	}
+	return x
+}
+
 func genPrimMac(r *rand.Rand, n int) []string {
 	var out []string
 	for i := 0; i < n; i++ {
@@ -223,8 +271,11 @@ func genPrimMac(r *rand.Rand, n int) []string {
 			alg = pick(r, aesmacAlgs)
 		}
 		ks := keySizeOf(alg)
-		if r.Intn(12) == 0 { // wrong key sizes 0..80
+		if r.Intn(8) == 0 { // wrong key sizes 0..80, often another valid AES / HMAC size
 			ks = r.Intn(81)
+			if r.Intn(2) == 0 {
+				ks = []int{16, 24, 32, 48, 64}[r.Intn(5)]
+			}
 		}
 		k := randBytes(r, ks)
 		data := randBytes(r, msgLen(r, i%50 == 0))
@@ -239,11 +290,21 @@ func genPrimMac(r *rand.Rand, n int) []string {
 			continue
 		}
 		var t []byte
-		switch r.Intn(7) {
+		switch r.Intn(9) {
 		case 0, 1:
 			t = tag
+		case 7, 8: // the tag followed by the true continuation of the untruncated MAC (any longer prefix of it)
+			full := fullMac(alg, k, data)
+			if len(full) > len(tag) {
+				t = full[:len(tag)+1+r.Intn(len(full)-len(tag))]
+			} else {
+				t = append(append([]byte{}, tag...), tag...)
+			}
 		case 2:
-			t = tag[:r.Intn(len(tag))] // truncation
+			t = tag[:r.Intn(len(tag))] // truncation (incl. the empty string)
+			if r.Intn(4) == 0 {
+				t = []byte{}
+			}
 		case 3:
 			t = append(append([]byte{}, tag...), randBytes(r, 1+r.Intn(3))...) // extension
 		case 4:
@@ -272,8 +333,8 @@ func genPrimAead(r *rand.Rand, n int) []string {
 			alg = pick(r, ccmAlgs)
 		}
 		ks := keySizeOf(alg)
-		if r.Intn(15) == 0 {
-			ks = []int{0, 15, 16, 17, 24, 31, 32, 33, 64}[r.Intn(9)]
+		if r.Intn(8) == 0 { // wrong sizes; the other AES sizes are the interesting ones (the block cipher accepts them)
+			ks = []int{0, 15, 16, 17, 24, 31, 32, 33, 64, 16, 24, 32, 16, 24, 32}[r.Intn(15)]
 		}
 		ns := nonceSizeOf(alg)
 		if r.Intn(12) == 0 {
@@ -343,6 +404,23 @@ func genPrimKdf(r *rand.Rand, n int) []string {
 			}
 			if r.Intn(10) == 0 {
 				sizes = append(sizes, strconv.Itoa(4081-total+r.Intn(3)-1))
+			}
+			if r.Intn(4) == 0 { // walk to 4065..4080 bytes consumed (all 255 blocks generated), then ask for more
+				sizes = nil
+				total = 0
+				stop := 4065 + r.Intn(16)
+				for total < stop {
+					s := []int{1, 7, 16, 17, 255, 1000, 4079, 4080, 1 + r.Intn(2000)}[r.Intn(9)]
+					if total+s > stop {
+						s = stop - total
+					}
+					total += s
+					sizes = append(sizes, strconv.Itoa(s))
+				}
+				sizes = append(sizes, strconv.Itoa([]int{0, 1, 4080 - stop, 4081 - stop, 16, 1 + r.Intn(40)}[r.Intn(6)]))
+				if r.Intn(2) == 0 {
+					sizes = append(sizes, strconv.Itoa(r.Intn(3)))
+				}
 			}
 			out = append(out, fmt.Sprintf("prim.hkdfaes.read %s %s %s", hx(randBytes(r, ks)), hx(info), strings.Join(sizes, ",")))
 		}
